@@ -236,6 +236,7 @@ def observe(case):
     except G.Unsupported as e:
         return {"unsupported": str(e)}
     n0 = len(D.keep)
+    D.n0 = n0
     assert sorted(h0) == list(range(n0))
     sum0 = B.summary(root)
     obs["n0"] = n0
@@ -567,15 +568,39 @@ def model_route(case, obs):
             # StandardCharacterMatrix.__init__ goes on after _clone_from and installs a brand-new
             # state alphabet (reported by the oracle): that tail is not modelled
             return None
-        return "(RCtor %d)" % ns
+        # _clone_from as it is: the constructed object is a second object with the attributes of the
+        # deep copy t (RCtor); the hidden twin t is visible when annotations refer to it.  When no twin
+        # shows (no such annotation, or _clone_from repaired to copy INTO self), the copy is
+        # indistinguishable from the taxon-namespace-scoped copy.
+        return ("(RCtor %d)" % ns) if obs.get("twin") else ("(RScoped %d)" % ns)
     return "(RScoped %d)" % ns
+
+
+_NF = []
+
+
+def none_target_ok():
+    """Which form of AnnotationSet.__deepcopy__ does the working tree have?  Probe: an AnnotationSet whose
+    target is None, reached while id(None) is not in memo (False: KeyError, the code as found)."""
+    if not _NF:
+        import copy
+        from dendropy.datamodel.charmatrixmodel import CharacterDataSequence
+        sq = CharacterDataSequence(["a"])
+        sq.annotations_at(0)
+        try:
+            copy.deepcopy(sq)
+            _NF.append(True)
+        except KeyError:
+            _NF.append(False)
+    return _NF[0]
 
 
 def to_coq(case, obs):
     clsid = dict(FIXED_CLS)
+    nf = "true" if none_target_ok() else "false"
     if "h0" not in obs:
         # the source could not even be built by copy construction: nothing to run
-        return "(mkCase [] 0 ROther (ESkip []) [] (P 0) [])"
+        return "(mkCase [] 0 ROther (ESkip []) [] (P 0) [] %s)" % nf
     heap = "[%s]" % "; ".join(_cobj(o, clsid) for o in obs["h0"])
     cp = obs["copy"]
     route = model_route(case, obs)
@@ -589,9 +614,9 @@ def to_coq(case, obs):
         rc = cp[1]
         expect = "(EOk (%s) %s)" % (_cv(_pv(rc)), news)
     other = obs.get("other_val")
-    return "(mkCase %s %d %s %s [%s] (%s) [%s])" % (
+    return "(mkCase %s %d %s %s [%s] (%s) [%s] %s)" % (
         heap, obs["root_oid"], route, expect, "; ".join(str(i) for i in obs.get("seeds", [])),
-        _cv(_pv(other)) if other else "P 0", "; ".join(str(i) for i in obs.get("written", [])))
+        _cv(_pv(other)) if other else "P 0", "; ".join(str(i) for i in obs.get("written", [])), nf)
 
 
 def nontrivial(case, obs):
@@ -667,10 +692,14 @@ def run(tier, seed, replay=None):
         "model coq/Model/C12Model.v is a hand transcription of copy.deepcopy and the library's __deepcopy__ overrides; tied by this correspondence run",
         "object graphs are dumped by py/dv/c12_graph.py: immutable values are interned ids, tuples have no identity, StateAlphabet/StateIdentity are opaque",
         "Python recursion depth is outside the model (trees <= 60 nodes)",
+        "variant of AnnotationSet.__deepcopy__ in the working tree (target None accepted: %s) decided by probing the library" % none_target_ok(),
     ]
     if replay:
         r = json.load(open(replay))["replay"]
-        case = r["case"]
+        case = r.get("case") or r.get("first_disagreeing_case")
+        if case is None:
+            print("replay file names a broken obligation, no input:", json.dumps(r)[:1500])
+            return 0
         obs = observe(case)
         print("oracle:", oracle(case, obs))
         print(json.dumps(_slim(obs), default=str)[:3000])
